@@ -289,9 +289,19 @@ private:
             for( ; it != end; ++it, ++dst_it )
             {
                 unsigned char c = get_color( *it, gray_color_t() );
-                *dst_it = this->_palette[ c ];
+                *dst_it = palette_color( c );
             }
         }
+    }
+
+    // the colour of a palette index read from the file, which may not be trusted
+    rgba8_pixel_t const& palette_color( std::size_t index ) const
+    {
+        io_error_if( index >= this->_palette.size()
+                   , "Mangled BMP file: palette index out of range."
+                   );
+
+        return this->_palette[ index ];
     }
 
     template< typename View >
@@ -507,14 +517,14 @@ private:
 
                     for( int i = 0; i < count; ++i )
                     {
-                        *dst_it++ = this->_palette[ cs[i & 1] ];
+                        *dst_it++ = palette_color( cs[i & 1] );
                     }
                 }
                 else
                 {
                     for( int i = 0; i < count; ++i )
                     {
-                        *dst_it++ = this->_palette[ second ];
+                        *dst_it++ = palette_color( second );
                     }
                 }
             }
@@ -596,11 +606,11 @@ private:
                                 uint8_t packed_indices = this->_io_dev.read_uint8();
                                 ++stream_pos;
 
-                                *dst_it++ = this->_palette[ packed_indices >> 4 ];
-                                if( ++i == second )
+                                *dst_it++ = palette_color( packed_indices >> 4 );
+                                if( ++i == second || dst_it == dst_end )
                                     break;
 
-                                *dst_it++ = this->_palette[ packed_indices & 0x0f ];
+                                *dst_it++ = palette_color( packed_indices & 0x0f );
                             }
                         }
                         else
@@ -609,7 +619,7 @@ private:
                             {
                                 uint8_t c = this->_io_dev.read_uint8();
                                 ++stream_pos;
-                                *dst_it++ = this->_palette[ c ];
+                                *dst_it++ = palette_color( c );
                              }
                         }
 
